@@ -2,11 +2,11 @@ package verifsim
 
 import (
 	"bufio"
+	"encoding/json"
+	"fmt"
 	"io"
 	"log"
 	"log/slog"
-	"encoding/json"
-	"fmt"
 	"os"
 	"sort"
 	"strconv"
@@ -53,37 +53,37 @@ func envU64(k string, def uint64) uint64 {
 
 // RunLine is one line of the worker's JSONL output.
 type RunLine struct {
-	Idx        int            `json:"idx"`
-	Seed       uint64         `json:"seed"`
-	Sub        string         `json:"sub,omitempty"`
-	Sig        string         `json:"sig"`
-	LogHash    string         `json:"log_hash"`
-	Steps      int            `json:"steps"`
-	SimMs      int64          `json:"sim_ms"`
-	WallMs     int64          `json:"wall_ms"`
-	End        string         `json:"end"`
-	Faults     map[string]int `json:"faults,omitempty"`
-	Probes     map[string]int `json:"probes,omitempty"`
-	Nontrivial bool           `json:"nontrivial"`
-	Violations []Violation    `json:"violations,omitempty"`
-	Replay     string         `json:"replay,omitempty"`
+	Idx        int               `json:"idx"`
+	Seed       uint64            `json:"seed"`
+	Sub        string            `json:"sub,omitempty"`
+	Sig        string            `json:"sig"`
+	LogHash    string            `json:"log_hash"`
+	Steps      int               `json:"steps"`
+	SimMs      int64             `json:"sim_ms"`
+	WallMs     int64             `json:"wall_ms"`
+	End        string            `json:"end"`
+	Faults     map[string]int    `json:"faults,omitempty"`
+	Probes     map[string]int    `json:"probes,omitempty"`
+	Nontrivial bool              `json:"nontrivial"`
+	Violations []Violation       `json:"violations,omitempty"`
+	Replay     string            `json:"replay,omitempty"`
 	Replays    map[string]string `json:"replays,omitempty"`
-	MinRuns    int            `json:"min_runs,omitempty"`
-	Err        string         `json:"err,omitempty"`
-	Sample     any            `json:"sample,omitempty"`
-	Ops        int            `json:"ops"`
-	Endpoints  int            `json:"endpoints"`
+	MinRuns    int               `json:"min_runs,omitempty"`
+	Err        string            `json:"err,omitempty"`
+	Sample     any               `json:"sample,omitempty"`
+	Ops        int               `json:"ops"`
+	Endpoints  int               `json:"endpoints"`
 }
 
 // ReplayFile is what VIOLATION lines point to.
 type ReplayFile struct {
-	Property  string      `json:"property"`
-	Violation Violation   `json:"violation"`
-	LogHash   string      `json:"log_hash"`
-	Plan      *Plan       `json:"plan"`
-	Trace     []string    `json:"trace,omitempty"`
-	Summary   any         `json:"summary,omitempty"`
-	FoundAt   string      `json:"found_at_seed"`
+	Property  string    `json:"property"`
+	Violation Violation `json:"violation"`
+	LogHash   string    `json:"log_hash"`
+	Plan      *Plan     `json:"plan"`
+	Trace     []string  `json:"trace,omitempty"`
+	Summary   any       `json:"summary,omitempty"`
+	FoundAt   string    `json:"found_at_seed"`
 }
 
 func nontrivial(r *Run) bool {
